@@ -15,6 +15,7 @@ VAR_POOLS = [
     ['x', 'y', 'z', 'w', 'x2', 'y2', 'z2', 'w2'],
     ['_', '_2', 'a', '_3', 'b', 'c2', 'd', 'n1'],          # collide with fresh reification vars
     ['s', 's2', 'b', 'p', 'n', 'g', 'i', 't'],
+    ['_', '_9', '_10', '_2', 'a', '_11', 'b', '_3'],      # names reification generates, incl. two-digit ones
 ]
 CONCEPTS = ['alpha', 'beta', 'go-01', 'want-01', 'dog', 'bark-01', 'person', 'name', 'chapter',
             'a', 'b', 'x', '_',                          # concepts spelled like variables
@@ -45,6 +46,7 @@ class ContentCfg:
         self.reifiable = 0.0        # bias towards roles that have reifications
         self.reified_nodes = 0.0    # probability of adding a collapsible reified node
         self.invalid_roles = 0.0
+        self.extra_edge_roles = []      # e.g. the model's top role as an ordinary (valid) relation
         self.var_like_constants = 0.0   # constants spelled like variables of *other* graphs
         self.avoid_ambiguous = False   # skip AMR's include-91 / :subset / :superset (finding F4)
         self.__dict__.update(kw)
@@ -76,6 +78,8 @@ def gen_content(rng, spec, cfg=None):
         return True
 
     def edge_role():
+        if cfg.extra_edge_roles and rng.chance(0.15):
+            return rng.pick(cfg.extra_edge_roles)
         if bad_roles and rng.chance(cfg.invalid_roles):
             return rng.pick(bad_roles)
         if reif_roles and rng.chance(cfg.reifiable):
